@@ -290,7 +290,30 @@ def synthetic_world(chk, rng, wi):
                        "e": M(V(tname), "register_converter",
                               V("conv%d" % pi))}]
 
+    # a converter that is built but never registered (or registered and
+    # removed again), tabulating exactly the pairs the registered ones lack:
+    # its rows must not apply
+    missing = [(u, v) for i, u in enumerate(units) for v in units[i + 1:]
+               if (u, v) not in rows and (v, u) not in rows]
+    ghost = None
+    if missing and rng.random() < 0.6:
+        ghost = rng.choice(["never-registered", "removed"])
+        gpart = {k: (F(7), F(1)) for k in missing}
+        pre_steps.append({"id": "ghost",
+                          "e": ["c", ["g", "quantity:TableConverter"],
+                                [mk_table(gpart)]]})
+        if ghost == "removed":
+            pre_steps.append({"k": "greg",
+                              "e": M(V(tname), "register_converter",
+                                     V("ghost"))})
+            pre_steps.append({"k": "grem",
+                              "e": M(V(tname), "remove_converter",
+                                     V("ghost"))})
+
     def pre_judge(obs):
+        if ghost:
+            chk.count("unregistered converter tabulating the missing pairs|"
+                      + ghost)
         chk.count("table form|" + form)
         chk.count("tables registered on the type|%d" % len(parts))
     pre_sub = (pre_steps, pre_judge)
@@ -312,7 +335,10 @@ def run(chk, R, tier, seed):
               "conversions with both directions tabulated inconsistently "
               "(forward row must win)",
               "worlds", "tables registered on the type|2",
-              "conversions whose result is zero"):
+              "conversions whose result is zero",
+              "unregistered converter tabulating the missing pairs|"
+              "never-registered",
+              "unregistered converter tabulating the missing pairs|removed"):
         chk.require(c)
     wrap = lambda jd: (lambda obs, rec, case: jd(obs))      # noqa: E731
     rows = {(u, v) for u in TEMP for v in TEMP if u != v}
